@@ -55,8 +55,8 @@ pub fn check_soundness(cx: &mut Cx, input: &str, d: &Doc) {
         }
         for c in (c0 + 1)..c1 {
             for r in [r0, r1] {
-                // a '|' flanked by '-' on both sides carries the edge through its two half stubs
-                let bar_between_dashes = at(c, r) == '|' && at(c - 1, r) == '-' && at(c + 1, r) == '-';
+                // a '|' flanked by '-' or '~' on both sides carries the edge through its two half stubs
+                let bar_between_dashes = at(c, r) == '|' && matches!(at(c - 1, r), '-' | '~') && matches!(at(c + 1, r), '-' | '~');
                 if !carries_h(at(c, r)) && !bar_between_dashes {
                     bad.push(format!("horizontal edge cell ({},{}) holds {:?}", c, r, at(c, r)));
                 }
